@@ -1,7 +1,8 @@
 (* C14/Property.v — property theorems only. *)
 From Coq Require Import String Ascii List Bool.
-From Verif Require Import Base.Str Base.Py Base.Percent Base.Base64 Base.Html Base.Query C14.Model C14.Spec C14.Proofs C14.Source.
-From VerifGen Require Import C14Src.
+From Coq Require Import ZArith.
+From Verif Require Import Base.Str Base.Py Base.Py2 Base.Percent Base.Base64 Base.Html Base.Query C14.Model C14.Spec C14.Proofs C14.Source C14.Source2.
+From VerifGen Require Import C14Src C14Src2.
 Import ListNotations.
 
 (* ---- the codecs, for every byte string *)
@@ -192,3 +193,106 @@ Print Assumptions c14_artifact_spec_reflect.
 Theorem c14_source_add_query : forall loc q, src_add_query (PStr loc) (PStr q) = PStr (add_query loc q).
 Proof. exact src_add_query_is_model. Qed.
 Print Assumptions c14_source_add_query.
+
+(* ---- tie to the source TEXT, translator v2 (harness/py2coq2.py, Base/Py2.v): the functions below are re-translated
+   from /repo's current source on every run (coq/gen/C14Src2.v); each computes, on the encoding of every input of
+   the model's domain, the encoding of the model's output.  External calls are hypotheses (C14/Source2.v shows
+   each set satisfiable). *)
+
+Theorem c14_source2_add_query : forall loc q, src2_add_query (PStr loc) (PStr q) = PStr (add_query loc q).
+Proof. exact src2_add_query_is_model. Qed.
+Print Assumptions c14_source2_add_query.
+
+Theorem c14_source2_html_escape : forall html_escape : pyval -> pyval -> pyval,
+  (forall s, html_escape (PStr s) (PBool true) = PStr (escape s)) ->
+  forall s, src2_html_escape html_escape (PStr s) = PStr (escape s).
+Proof. exact src2_html_escape_is_model. Qed.
+Print Assumptions c14_source2_html_escape.
+
+Theorem c14_source2_http_form_post_message :
+  forall (html_escape : pyval -> pyval -> pyval) (b64encode : pyval -> pyval) (str_encode bytes_decode : pyval -> pyval -> pyval),
+  (forall s, html_escape (PStr s) (PBool true) = PStr (escape s)) ->
+  (forall s, b64encode (PStr s) = PStr (encode s)) ->
+  (forall s, str_encode (PStr s) (PStr "utf-8") = PStr s) ->
+  (forall s, bytes_decode (PStr s) (PStr "ascii")
+             = if all_chars is_ascii_char s then PStr s else PExc "UnicodeDecodeError") ->
+  forall (msg loc rs typ : string) (kw : pyval),
+    src2_http_form_post_message html_escape b64encode str_encode bytes_decode (PStr msg) (PStr loc) (PStr rs) (PStr typ) kw
+    = enc_post (http_form_post_message msg loc rs typ).
+Proof. exact src2_http_form_post_message_is_model. Qed.
+Print Assumptions c14_source2_http_form_post_message.
+
+Theorem c14_source2_http_redirect_message :
+  forall (py_urlencode deflate_b64 : pyval -> pyval) (deflate : string -> string),
+  (forall l, py_urlencode (enc_args l) = PStr (urlencode l)) ->
+  (forall m, deflate_b64 (PStr m) = PStr (deflate_and_base64_encode deflate m)) ->
+  forall (msg loc rs typ : string) (sigalg sign backend sig_allowed_alg : pyval) (ext : string -> list pyval -> pyval),
+    is_bad sign = false -> py_truthy sign = false ->
+    src2_http_redirect_message py_urlencode deflate_b64 sig_allowed_alg ext
+      (PStr msg) (PStr loc) (PStr rs) (PStr typ) sigalg sign backend
+    = enc_redirect (http_redirect_message deflate msg loc rs typ).
+Proof. exact src2_http_redirect_message_is_model. Qed.
+Print Assumptions c14_source2_http_redirect_message.
+
+Theorem c14_source2_use_http_artifact : forall py_urlencode : pyval -> pyval,
+  (forall l, py_urlencode (enc_args l) = PStr (urlencode l)) ->
+  forall art dest rs,
+    src2_use_http_artifact py_urlencode (PStr art) (PStr dest) (PStr rs) = enc_url_info (use_http_artifact art dest rs).
+Proof. exact src2_use_http_artifact_is_model. Qed.
+Print Assumptions c14_source2_use_http_artifact.
+
+Theorem c14_source2_use_http_uri : forall py_urlencode : pyval -> pyval,
+  (forall l, py_urlencode (enc_args l) = PStr (urlencode l)) ->
+  forall ident dest rs, uri_msg_ok ident = true ->
+    src2_use_http_uri py_urlencode (PStr ident) (PStr "SAMLRequest") (PStr dest) (PStr rs)
+    = enc_url_info (use_http_uri ident dest rs).
+Proof. exact src2_use_http_uri_is_model. Qed.
+Print Assumptions c14_source2_use_http_uri.
+
+Theorem c14_source2_use_http_uri_other_typ : forall (py_urlencode : pyval -> pyval) ident typ dest rs,
+  uri_msg_ok ident = true -> String.eqb typ "SAMLResponse" = false -> String.eqb typ "SAMLRequest" = false ->
+  src2_use_http_uri py_urlencode (PStr ident) (PStr typ) (PStr dest) (PStr rs) = PExc "NotImplementedError".
+Proof. exact src2_use_http_uri_other_typ. Qed.
+Print Assumptions c14_source2_use_http_uri_other_typ.
+
+Theorem c14_source2_decode_base64_and_inflate :
+  forall (b64decode : pyval -> pyval) (zlib_decompress : pyval -> pyval -> pyval) (inflate : string -> option string),
+  (forall s d, decode_str s = Some d -> b64decode (PStr s) = PStr d) ->
+  (forall s, decode_str s = None -> exists n, b64decode (PStr s) = PExc n /\ n <> "error") ->
+  (forall d, zlib_decompress (PStr d) (PInt (-15)) = match inflate d with Some m => PStr m | None => PExc "error" end) ->
+  forall txt,
+    dres_is (decode_base64_and_inflate inflate txt) (src2_decode_base64_and_inflate b64decode zlib_decompress (PStr txt)).
+Proof. exact src2_decode_base64_and_inflate_is_model. Qed.
+Print Assumptions c14_source2_decode_base64_and_inflate.
+
+Theorem c14_source2_unravel :
+  forall (b64decode : pyval -> pyval) (zlib_decompress : pyval -> pyval -> pyval) (soap_mod : pyval)
+         (call_fn : pyval -> pyval -> pyval) (inflate soap_parse : string -> option string) (msgtype : string) (soap_fn : pyval),
+  (forall s d, decode_str s = Some d -> b64decode (PStr s) = PStr d) ->
+  (forall s, decode_str s = None -> exists n, b64decode (PStr s) = PExc n /\ n <> "error") ->
+  (forall d, zlib_decompress (PStr d) (PInt (-15)) = match inflate d with Some m => PStr m | None => PExc "error" end) ->
+  p2_getattr_dyn false soap_mod (PStr ("parse_soap_enveloped_saml_" ++ msgtype)) = soap_fn /\ is_bad soap_fn = false ->
+  (forall txt m, soap_parse txt = Some m -> call_fn soap_fn (PStr txt) = PStr m) ->
+  (forall txt, soap_parse txt = None -> exists n, call_fn soap_fn (PStr txt) = PExc n) ->
+  forall (txt : string) (b : option string),
+    src2_unravel b64decode zlib_decompress soap_mod call_fn (PStr txt) (enc_binding b) (PStr msgtype)
+    = enc_ures (unravel inflate soap_parse txt (binding_of b)).
+Proof. exact src2_unravel_is_model. Qed.
+Print Assumptions c14_source2_unravel.
+
+Theorem c14_source2_artifact2destination :
+  forall (b64decode : pyval -> pyval) (int_base : pyval -> pyval -> pyval),
+  (forall s d, decode_str s = Some d -> b64decode (PStr s) = PStr d) ->
+  (forall s, decode_str s = None -> exists n, b64decode (PStr s) = PExc n) ->
+  (forall b, String.length b <= 2 ->
+     int_base (PStr b) (PInt 16) = match int16_z b with Some z => PInt z | None => PExc "ValueError" end) ->
+  forall (sm : sourcemap) (art dname : string), sm_ok sm = true -> art_ascii art = true ->
+    ares_is (artifact2destination sm art)
+            (src2_artifact2destination b64decode int_base (enc_self dname sm) (PStr art) (PStr dname)).
+Proof. exact src2_artifact2destination_is_model. Qed.
+Print Assumptions c14_source2_artifact2destination.
+
+(* the model's str(int(b, 16)) is the decimal text of the int the hypothesis above speaks about *)
+Theorem c14_source2_int16 : forall b, int16_str b = option_map dec_of_Z (int16_z b).
+Proof. exact int16_str_z. Qed.
+Print Assumptions c14_source2_int16.
